@@ -115,12 +115,7 @@ def run(ctx):
         if not r["trace_runs"]:
             continue
         ok, where, tres = ctx.validate_trace("TxDepTrace", path, name, consts, invariants=INVS)
-        if not ok:
-            if tres["invariant"]:
-                ctx.violation(f"invariant {tres['invariant']} fails on a recorded dependency-graph run",
-                              {"kind": "dep_trace", "trace": path, "at": where})
-            else:
-                raise ToolError(f"conformance drift: dependency trace not a behaviour of TxDep.tla: {where}")
+        ctx.trace_verdict(ok, where, tres, "TxDepTrace", path, consts, INVS, "TxDep.tla")
         ctx.traces += r["trace_runs"]
         ctx.trace_events += r["trace_events"]
     if not ctx.violations:
